@@ -290,6 +290,17 @@ func heapRun(c *fw.Ctx, ops []hop, opt heapOpts) (div *heapDiv, st heapStats) {
 	for step = 0; step < len(ops); step++ {
 		o := ops[step]
 		c.Step()
+		if !opt.checkPos && step%29 == 13 {
+			// the optional update function removed (documented: Update(nil)) or set
+			// again in mid-life; positions are not being checked in this run
+			if step%58 == 13 {
+				q.Update(nil)
+			} else if opt.update {
+				q.Update(update)
+			} else {
+				q.Update(func(Elem, int) {})
+			}
+		}
 		if opt.moved == 2 && step == 7 {
 			cp := *q // moved by value after some use; only the copy is used from here on
 			q = &cp
